@@ -1632,3 +1632,47 @@ func TestVerifKF_C17_MeanReadTorn(t *testing.T) {
 			c17MeanTornKey, math.Float64frombits(b))
 	}
 }
+
+// ---- facet C17/rate-window ----------------------------------------------------------------------------------
+//
+// The first read of a rate (and the first one after a reset, and the first one of every new second) closes the
+// one-second window while other goroutines keep counting: the moment at which a total could lose or double-count
+// events. Short scripts of rate / per-key operations only, every case executed on fresh objects many times so that the
+// window is closed under many interleavings; same reference model and bounds as C17/burst.
+
+var c17WindowCfg = c17GenCfg{
+	kinds:    []string{"rincr", "rget", "rget", "total", "kincr", "kget", "ktotal", "kall"},
+	objs:     c17LocalObjs,
+	gBuckets: [][2]int{{2, 2}, {3, 4}, {5, 8}}, maxOps: 8, maxPhases: 2, maxKeys: 2, maxRepeat: 6,
+	resets: []string{"rate", "bucket", "key"},
+}
+
+func c17WindowRepeat() int { return veriflib.N("C17_WINDOW_REPEAT", 24, 48) }
+
+func propC17Window(t veriflib.TB, c c17Case) {
+	key := veriflib.JSON(c)
+	c17Journal("C17/rate-window", key)
+	for i := 0; i < c17WindowRepeat(); i++ {
+		c17RunCase(t, "C17/rate-window", newC17Local(), c17LocalObjs, newC17Model(), c)
+	}
+	nt, cl := c17Shape(c)
+	veriflib.Record("C17/rate-window", key, nt, cl, func() any { return c17Sample(c) })
+}
+
+func TestVerif_C17_RateWindow(t *testing.T) {
+	defer veriflib.Flush()
+	defer c17JournalDone()
+	var rc c17Case
+	if veriflib.ReplayCase("C17/rate-window", &rc) {
+		for i := 0; i < c17ReplayRepeat(); i++ {
+			propC17Window(t, rc)
+		}
+		return
+	} else if veriflib.Replaying() {
+		t.Skip()
+	}
+	rapid.Check(t, func(t *rapid.T) {
+		c := genC17Case(t, c17WindowCfg)
+		veriflib.Guard("C17", "C17/rate-window", c, func() { propC17Window(t, c) })
+	})
+}
